@@ -235,7 +235,7 @@ class Evaluator:
             if not isinstance(p, int):
                 raise Inconclusive("symbolic array index")
             if p < 0 or p >= len(v.items):
-                raise Inconclusive("array index %d out of bounds (%d)" % (p, len(v.items)))
+                raise Inconclusive("bad array index %d (size %d)" % (p, len(v.items)))
             return v.items[p]
         if isinstance(v, tuple) and v and v[0] == "g":
             return gamma(v[1], self._child(v[2], p), self._child(v[3], p))
